@@ -2,6 +2,7 @@
 // "sources"): object-lifetime observation of unbounded_array / igris::ring / cyclic_buffer with a
 // ledger type and a counting allocator (`lifeprobe`, `lifecount` ops).
 #include "common/hv.h"
+#include "C03_acc.h"
 #include <deque>
 #include <memory>
 #include <map>
@@ -172,7 +173,7 @@ void run_lifecount(const std::vector<std::string> &w, out &o)
                 else if (ch == 'O') r->pop();
                 else r->push(r->head_place());
                 q.clear();
-                for (unsigned i = r->r.tail; i != r->r.head; i = (i + 1) % r->r.size) q.push_back(r->buffer[i].v);
+                for (unsigned i = acc::rtail(*r); i != acc::rhead(*r); i = (i + 1) % acc::rsize(*r)) q.push_back(acc::slot(*r, i).v);
             }
             else if (ch == 'c') { r->clear(); q.clear(); }
             else if (ch == 'z') { r->resize(n); q.clear(); }
